@@ -256,8 +256,15 @@ def judge(expect, compiled, codes):
 # hooks
 # ------------------------------------------------------------------------------------------
 
+def load_table(ctx):
+    try:
+        return gen_structs.Table(ctx["repo"])
+    except Exception as e:  # a source construct the translator cannot read is a machinery error
+        raise ctx["MachineryError"](f"tools/gen_structs.py cannot translate {ctx['repo']}/src: {type(e).__name__}: {e}")
+
+
 def pre(ctx):
-    table = gen_structs.Table(ctx["repo"])
+    table = load_table(ctx)
     text = gen_structs.render(table)
     out = gen_structs.DEFAULT_OUT
     old = open(out).read() if os.path.exists(out) else None
@@ -300,7 +307,7 @@ def run(ctx):
     work = os.path.join(ctx["work"], "probes")
     os.makedirs(work, exist_ok=True)
     rlib, deps = locate_rlib(ctx)
-    table = gen_structs.Table(ctx["repo"])
+    table = load_table(ctx)
     violations, samples = [], []
     cov = {}
 
